@@ -5,6 +5,7 @@ real ``package.conditionals`` wrapper (built with ``ConfiguredTree.config_wrappa
 DEPEND/RDEPEND/PDEPEND/BDEPEND/IDEPEND/LICENSE/RESTRICT/REQUIRED_USE/fetchables/distfiles mention the flags.
 """
 
+import hashlib
 import json
 
 from verif.engines import bfs
@@ -35,6 +36,8 @@ BOUNDS = {
     "quick": "20-event alphabet, all histories to depth 5, partitioned by 2-event root prefixes",
     "thorough": "20-event alphabet + rollback points up to 5, all histories to depth 7, partitioned by 3-event root prefixes",
 }
+
+TIME_CAP = {"quick": 300, "thorough": 2400}
 
 # ---------------------------------------------------------------- package under test (structure -> text and -> model)
 # node: ("leaf", text) | ("if", flag, wanted, [nodes]) | ("or", [nodes])
@@ -205,7 +208,11 @@ def build(hist):
 
 
 def canon(st):
-    return st.canon
+    # the exact snapshot, kept as a 128-bit digest of its repr so that seen-sets of 10^5..10^6 states stay small
+    return hashlib.blake2b(repr(st.canon).encode(), digest_size=16).digest()
+
+
+_ref = {}
 
 
 def check_state(st, hist):
@@ -230,10 +237,13 @@ def check_state(st, hist):
     use = frozenset(w.use)
     for a in ATTR_ORDER:
         got = _fmt(getattr(w, a))
-        ref = getattr(raw, a).evaluate_depset(use)
-        if a == "distfiles":
-            ref = tuple(dict.fromkeys(ref))
-        exp = _fmt(ref)
+        exp = _ref.get((a, use))
+        if exp is None:
+            # reference: the raw attribute evaluated under a private copy of the observed USE set (16 possible sets)
+            ref = getattr(raw, a).evaluate_depset(use)
+            if a == "distfiles":
+                ref = tuple(dict.fromkeys(ref))
+            exp = _ref[(a, use)] = _fmt(ref)
         if got != exp:
             out.append({"what": "stale", "attr": a, "detail": f"{a} = {got!r} but raw {a} under USE {sorted(use)} = {exp!r}"})
             break
